@@ -234,7 +234,9 @@ func (req *SrvReq) process() {
 	req.Unlock()
 
 	if flushed {
+		// cancelled before anybody worked on it: it must not run
 		req.Respond()
+		return
 	}
 
 	if rop, ok := (req.Conn.Srv.ops).(SrvReqProcessOps); ok {
